@@ -233,6 +233,22 @@ PROPS["C05"] = {
     "level_note": "Liveness proper is not claimed: owed@get is the safety surrogate (never blocked on a result that will not come), worker "
                   "progress is an assumption.",
 }
+PROPS["C04"] = {
+    "units": ["contracts.c04_worker"],
+    "bounded": True,
+    "level": "other",
+    "trusted_base": ["pyvc VC generator (/verif/pyvc)", "z3", "Python semantics as listed in DESIGN.md §2.3",
+                     "demonic work queue; result / replace queues record what is put; begin / end / functor abstract (begin and the functor may raise)"],
+    "explanation": "Deductive (unbounded in the number of work items, for every arrival of items / stop token and for an exception raised by begin() "
+                   "or by the functor at any item): BaseFunctorWorker.run - ghost event log = begin, one event per processed chunk, end: begin "
+                   "exactly once and first, end exactly once and last on the normal AND on every exceptional exit (try/finally), begin_finished "
+                   "set only after begin() returned, processed + remaining quota = initial quota (at most k chunks), the wid is posted on the "
+                   "replace queue exactly when the quota is exhausted, and exactly one result (i, [f(x) for x in c]) is put per work item "
+                   "(i, c) on either branch of the queue.Full handling. Bounded only (real processes): until_all_ready, FunctorPool.__exit__ "
+                   "(one stop token per worker, joins), join-before-replace in ReplaceWorkerThread, 'no worker left running'.",
+    "level_text": "Proof of the worker's run() against its lifecycle / quota / result contract; bounded real-process scenarios for the pool side.",
+    "level_note": "end() is assumed not to raise; max_chunks_per_worker = math.inf (no quota) is the bounded layer's case.",
+}
 
 # properties not claimed, with the reason (everything else not in PROPS gets the generic "not built yet" reason)
 NOT_APPLICABLE = {}
